@@ -1915,3 +1915,10 @@ mod tests {
         assert!(result.is_ok());
     }
 }
+
+#[cfg(all(kani, feature = "verif-hooks"))]
+mod verif_kani {
+    #[allow(unused_imports)]
+    use super::*;
+    include!(concat!(env!("ROOC_VERIF_KANI_DIR"), "/linearizer.rs"));
+}
